@@ -19,6 +19,17 @@ MUT = {
   "no_hash_recheck_on_existing": [("lintcmd/cache/cache.go", "\t\t\tif out == out2 {\n\t\t\t\treturn nil\n\t\t\t}", "\t\t\t_ = out2\n\t\t\treturn nil")],
   "full_copy_then_verify": [("lintcmd/cache/cache.go", "if _, err := io.CopyN(w, file, size-1); err != nil {", "if _, err := io.CopyN(w, file, size-1); err != nil || func() bool { f.Write([]byte{0}); f.Seek(-1, 1); return false }() {")],
  },
+ "C18": {
+  "instance_no_wait": [("go/ir/instantiate.go", "\t} else {\n\t\tb.waitForSharedFunction(inst)\n\t}", "\t}")],
+  "objectmethod_no_wait": [("go/ir/methods.go", "\t} else {\n\t\tb.waitForSharedFunction(fn)\n\t}\n\treturn fn\n}", "\t}\n\treturn fn\n}")],
+  "methodvalue_no_wait": [("go/ir/methods.go", "\t\t} else {\n\t\t\tb.waitForSharedFunction(fn)\n\t\t}\n\n\t\treturn fn", "\t\t}\n\n\t\treturn fn")],
+  "markdone_before_iterate": [("go/ir/builder.go", "func (b *builder) iterate() {\n\tfor ; b.finished < len(b.fns); b.finished++ {\n\t\tfn := b.fns[b.finished]\n\t\tb.buildFunction(fn)\n\t}\n\n\tb.buildshared.markDone()\n", "func (b *builder) iterate() {\n\tb.buildshared.markDone()\n\tfor ; b.finished < len(b.fns); b.finished++ {\n\t\tfn := b.fns[b.finished]\n\t\tb.buildFunction(fn)\n\t}\n\n")],
+  "wait_ignores_edges": [("go/ir/task.go", "\t\tfor v := range u.edges {\n\t\t\tif _, ok := enqueued[v]; !ok {", "\t\tfor v := range u.edges {\n\t\t\tif _, ok := enqueued[v]; !ok && u == x {")],
+  "buildonce_bool": [("go/ir/builder.go", "func (p *Package) Build() { p.buildOnce.Do(p.build) }", "func (p *Package) Build() {\n\tif p.info != nil {\n\t\tp.build()\n\t}\n}")],
+  "no_instances_lock": [("go/ir/instantiate.go", "\tgen.instancesMu.Lock()\n\tdefer gen.instancesMu.Unlock()\n", "")],
+  "methodset_insert_unlocked": [("go/ir/methods.go", "\t\tprog.methodsMu.Lock()\n\t\tdefer prog.methodsMu.Unlock()\n\n\t\t// Get or create SSA method set.\n\t\tmset, ok := prog.methodSets.At(T)", "\t\tprog.methodsMu.Lock()\n\t\tmset0, ok0 := prog.methodSets.At(T)\n\t\tprog.methodsMu.Unlock()\n\t\t_, _ = mset0, ok0\n\t\tprog.methodsMu.Lock()\n\t\tdefer prog.methodsMu.Unlock()\n\n\t\t// Get or create SSA method set.\n\t\tmset, ok := prog.methodSets.At(T)")],
+  "early_markdone_in_wait": [("go/ir/task.go", "\t\t<-u.done // wait for u to be marked done.\n", "\t\tif u == x {\n\t\t\t<-u.done // wait for u to be marked done.\n\t\t}\n")],
+ },
  "C06": {
   "triggers_before_exec": [("lintcmd/runner/runner.go", "\tif !a.IsFailed() {\n\t\tif err := exec(a); err != nil {\n\t\t\ta.MarkFailed()\n\t\t\ta.AddError(err)\n\t\t}\n\t}\n\tif sem != nil {\n\t\tsem.Release()\n\t}\n\n\tfor _, t := range a.Triggers() {\n\t\tif t.DecrementPending() {\n\t\t\tqueue <- t\n\t\t}\n\t}\n",
       "\tfor _, t := range a.Triggers() {\n\t\tif t.DecrementPending() {\n\t\t\tqueue <- t\n\t\t}\n\t}\n\tif !a.IsFailed() {\n\t\tif err := exec(a); err != nil {\n\t\t\ta.MarkFailed()\n\t\t\ta.AddError(err)\n\t\t}\n\t}\n\tif sem != nil {\n\t\tsem.Release()\n\t}\n")],
@@ -26,7 +37,7 @@ MUT = {
   "double_release_inline": [("lintcmd/runner/runner.go", "genericHandle(item, root, queue, nil, ar.do)", "genericHandle(item, root, queue, &r.semaphore, ar.do)")],
   "no_final_sort": [("lintcmd/cmd.go", "\tif len(diagnostics) > 1 {\n\t\tsort.Slice(diagnostics, func(i, j int) bool {", "\tif len(diagnostics) > 1 {\n\t\tsort.Slice(diagnostics, func(i, j int) bool {\n\t\t\tif true {\n\t\t\t\treturn diagnostics[i].Position.Filename < diagnostics[j].Position.Filename\n\t\t\t}")],
   "analyzer_pending_off_by_one": [("lintcmd/runner/runner.go", "\ta.pending = uint32(len(a.deps))\n\treturn a\n}", "\ta.pending = uint32(len(a.deps))\n\tif a.pending > 2 {\n\t\ta.pending--\n\t}\n\treturn a\n}")],
-  "unused_first_variant_wins": [("lintcmd/lint.go", "\t\t\t\t\tused[key] = true\n", "\t\t\t\t\tif _, seen := used[key]; !seen {\n\t\t\t\t\t\tused[key] = true\n\t\t\t\t\t}\n")],
+  "unused_first_variant_wins": [("lintcmd/lint.go", "\t\t\t\tused[key] = true\n\t\t\t}", "\t\t\t\tif _, seen := used[key]; !seen {\n\t\t\t\t\tused[key] = true\n\t\t\t\t}\n\t\t\t}")],
  },
 }
 
